@@ -534,6 +534,7 @@ def work_game(task, res: Result):
             res.case(_desc(task, "npa1"), nontriv, "npa1")
             if certified:
                 vl, vh = vbounds(1)
+                res.count("deviation/npa1/" + _bucket(max(vl - v, v - vh, 0.0)))
                 if not (vl - TAU <= v <= vh + TAU):
                     fail("to_nonlocal_game", f"level-1 NPA bound of the converted game = {v:.8f} outside the certified XOR quantum value interval [{vl:.8f}, {vh:.8f}]",
                          {"impl": v, "certified_value": [vl, vh], "tau": TAU, "theorem": "checkXorPrimal_sound / checkXorDual_sound / xor_win_eq_bias"})
@@ -541,7 +542,8 @@ def work_game(task, res: Result):
     if "ns" in task["calls"]:
         ok, v1 = guarded("nonsignaling_value", lambda: float(make(1).nonsignaling_value()))
         if ok:
-            res.case(_desc(task, "nonsignaling_value"), True, "nonsignaling_value")
+            res.case(_desc(task, "nonsignaling_value"), nontriv, "nonsignaling_value")
+            res.count("deviation/nonsignaling_value/" + _bucket(abs(v1 - float(total))))
             if abs(v1 - float(total)) > TAU:
                 fail("nonsignaling_value", f"XORGame.nonsignaling_value = {v1:.8f}, but every XOR game has non-signalling value {float(total)} (PR-box-like behaviour)", {"impl": v1, "model": float(total), "theorem": "xor_ns_value_eq_one"})
             if nlg is not None:
@@ -556,7 +558,7 @@ def work_game(task, res: Result):
             ex = _exact_classical_reps2(P, pred_i.tolist(), m, n)
             if abs(Fr(c2) - ex) > Fr(1, 10 ** 12):
                 fail("classical_value", f"XORGame(reps=2).classical_value = {c2!r} differs from the exact classical value of the 2-fold game {float(ex)!r}", {"impl": c2, "model": str(ex), "theorem": "definition (harness brute force)"})
-            if ex < c_exact * c_exact or (certified and float(ex) > vbounds(2)[1] + 1e-9):
+            if total == 1 and (ex < c_exact * c_exact or (certified and float(ex) > vbounds(2)[1] + 1e-9)):
                 res.violation("harness: 2-fold classical value outside [c^2, q^2]", {"function": "harness", "args": _desc(task, "sanity"), "c2": float(ex), "c": float(c_exact)})
 
 
@@ -756,8 +758,11 @@ def run(ctx, model_ok=True):
     rng = ctx.rng
     quick = ctx.tier == "quick"
     tasks = corpus() + bell_corpus()
-    n_games = 110 if quick else 900
-    n_bell = 70 if quick else 500
+    n_games = 110 if quick else 2400
+    n_bell = 70 if quick else 1200
+    if not quick:
+        p7, f7 = _odd_cycle(7)
+        tasks.append(_game("odd-cycle-7", p7, f7, calls=("q", "c", "conv")))
     games = [gen_game(rng, quick, i) for i in range(n_games)]
     bells = [gen_bell(rng, quick, i) for i in range(n_bell)]
     # interleave so that the pool is evenly loaded
